@@ -171,8 +171,17 @@ def run(ctx):
     for gr, sources in CASE_CORPUS:
         cls_w, rules_w = G.build(P, gr)
         vjobs.append((gr, [(s, i, listed_trees(P, rules_w[0], s, i)) for s in sources for i in range(len(s) + 1)]))
-    for gr, cases in gcases:
-        cls_w, rules_w = G.build(P, gr)   # one build per grammar: caches stay warm across sources/offsets
+    for gk, (gr, cases) in enumerate(gcases):
+        # one build per grammar: caches stay warm across sources/offsets; every other grammar is built by rendering it as ABNF
+        # text and loading it through the library's reader (what the text denotes is the AST the trees are checked against)
+        rules_w = None
+        if gk % 2 == 1:
+            try:
+                cls_w, rules_w = G.build_from_text(P, gr)
+            except Exception:  # noqa - not expressible as text (nested first-match flags, ...)
+                rules_w = None
+        if rules_w is None:
+            cls_w, rules_w = G.build(P, gr)
         vcases = []
         vjobs.append((gr, vcases))
         cases = cases[:20] + [(s[1:], max(0, i - 1)) for s, i in cases[:6] if len(s) > 1] + [("zz" + s, i + 2) for s, i in cases[:6]]
